@@ -174,11 +174,11 @@ impl Oracle {
         match ack_cas {
             Some(c) => {
                 if c == 0 {
-                    self.viol(&["C01", "C02"], line, format!("acknowledged mutation of key {} reports cas 0", wire::hex(key)));
+                    self.viol(&["C01", "C02"], line, format!("acknowledged mutation of key {} reports cas 0", wire::kx(key)));
                 }
                 if let Some(l) = &mut lifetime {
                     if l.contains(&c) {
-                        self.viol(&["C02"], line, format!("cas {} given to key {} was already carried during this lifetime {:?}", c, wire::hex(key), l));
+                        self.viol(&["C02"], line, format!("cas {} given to key {} was already carried during this lifetime {:?}", c, wire::kx(key), l));
                     }
                     l.push(c);
                 }
@@ -230,7 +230,7 @@ impl Oracle {
                 }
             }
         };
-        let kx = wire::hex(key);
+        let kx = wire::kx(key);
         match self.pres(key, now) {
             Pres::Absent => {
                 if hit.is_some() {
@@ -327,13 +327,13 @@ impl Oracle {
             let cur = self.item(key).unwrap().cas;
             if req_cas != 0 && cur != 0 {
                 if req_cas == cur && !ok {
-                    self.viol(&["C02"], line, format!("{} on {} carrying the current cas {} was rejected with status {:#x}", what, wire::hex(key), cur, status));
+                    self.viol(&["C02"], line, format!("{} on {} carrying the current cas {} was rejected with status {:#x}", what, wire::kx(key), cur, status));
                 }
                 if req_cas != cur && ok {
-                    self.viol(&["C02"], line, format!("{} on {} carrying cas {} succeeded although the current cas is {}", what, wire::hex(key), req_cas, cur));
+                    self.viol(&["C02"], line, format!("{} on {} carrying cas {} succeeded although the current cas is {}", what, wire::kx(key), req_cas, cur));
                 }
                 if req_cas != cur && !ok && status != 0x02 {
-                    self.viol(&["C02"], line, format!("{} on {} with a stale cas failed with status {:#x}, not 'key exists'", what, wire::hex(key), status));
+                    self.viol(&["C02"], line, format!("{} on {} with a stale cas failed with status {:#x}, not 'key exists'", what, wire::kx(key), status));
                 }
             }
         }
@@ -346,7 +346,7 @@ impl Oracle {
         let ack = seen.cas();
         let pres = self.pres(key, now);
         let dl = deadline(now, exp);
-        let kx = wire::hex(key);
+        let kx = wire::kx(key);
         let ok = status == 0;
         match kind {
             op::SET => {
@@ -450,7 +450,7 @@ impl Oracle {
         let status = seen.status(0);
         let ack = seen.cas();
         let pres = self.pres(key, now);
-        let kx = wire::hex(key);
+        let kx = wire::kx(key);
         let ok = status == 0;
         let what = if append { "append" } else { "prepend" };
         match pres {
@@ -491,7 +491,7 @@ impl Oracle {
         let status = seen.status(0);
         let ack = seen.cas();
         let pres = self.pres(key, now);
-        let kx = wire::hex(key);
+        let kx = wire::kx(key);
         let ok = status == 0;
         let what = if incr { "incr" } else { "decr" };
         let rvalue: Option<u64> = match &seen {
@@ -549,9 +549,9 @@ impl Oracle {
                     self.stored(line, key, nv.to_string().into_bytes(), it.flags, ack, must, may, ttl, true, false);
                 } else if let Some(v) = plus_decimal(&it.value) {
                     // "+digits": neither a decimal u64 nor clearly non-numeric — unconstrained
+                    let _ = v;
                     if ok {
-                        let nv = rvalue.unwrap_or_else(|| compute(v));
-                        self.stored(line, key, nv.to_string().into_bytes(), it.flags, ack, None, Some(now), Ttl::Unknown, true, false);
+                        self.keys.insert(key.to_vec(), KState::Unknown);
                     }
                 } else {
                     if ok {
@@ -620,7 +620,7 @@ impl Oracle {
     fn delete(&mut self, line: usize, now: u64, key: &[u8], cas: u64, seen: Seen) {
         let status = seen.status(0);
         let pres = self.pres(key, now);
-        let kx = wire::hex(key);
+        let kx = wire::kx(key);
         let ok = status == 0;
         match pres {
             Pres::Present => {
@@ -722,12 +722,12 @@ impl Oracle {
                     let it = self.item(&k).unwrap().clone();
                     match found {
                         None => {
-                            self.viol(&blame, line, format!("key {} stored at line {} is live but missing from the store", wire::hex(&k), it.line));
+                            self.viol(&blame, line, format!("key {} stored at line {} is live but missing from the store", wire::kx(&k), it.line));
                             self.keys.insert(k.clone(), KState::Unknown);
                         }
                         Some(r) => {
                             if r.value != it.value || r.flags != it.flags || (it.cas != 0 && r.cas != it.cas) {
-                                self.viol(&blame, line, format!("key {} holds ({}, {:#x}, cas {}) but the history implies ({}, {:#x}, cas {})", wire::hex(&k), wire::hexd(&r.value), r.flags, r.cas, wire::hexd(&it.value), it.flags, it.cas));
+                                self.viol(&blame, line, format!("key {} holds ({}, {:#x}, cas {}) but the history implies ({}, {:#x}, cas {})", wire::kx(&k), wire::hexd(&r.value), r.flags, r.cas, wire::hexd(&it.value), it.flags, it.cas));
                                 self.keys.insert(k.clone(), KState::Unknown);
                             }
                         }
@@ -737,7 +737,7 @@ impl Oracle {
                     if found.is_some() {
                         match self.why_absent(&k) {
                             Why::Deleted | Why::Flushed => {
-                                self.viol(&["C08"], line, format!("key {} was deleted/flushed but is still stored", wire::hex(&k)));
+                                self.viol(&["C08"], line, format!("key {} was deleted/flushed but is still stored", wire::kx(&k)));
                                 self.keys.insert(k.clone(), KState::Unknown);
                             }
                             _ => {}
